@@ -743,6 +743,11 @@ func robustStream(r *Run) {
 		}
 	}
 
+	// (1c) times: {{ t }}, the date filter on times and on date strings, times inside containers (stream_filter_date.go)
+	for _, tc := range dateTemplateFamily() {
+		run(plain, tc.src, tc.env, "date-family")
+	}
+
 	// (2) token sequences of the expression language in every expression context
 	tokEnv := map[string]*V{"a": VInt(0, 1), "nums": VAnys(VInt(0, 1), VInt(0, 2)), "upcase": VStr("u")}
 	maxLen := 3
